@@ -183,6 +183,9 @@ def run(ctx):
     _c10.r10_5_frame_locals(ctx)  # every frame index the allocator / the calling convention can produce is accepted by frame_dig / frame_bury
     _c17.r17_1_walk(ctx)  # a program without read-before-write is not rejected by the definite-assignment walk
     _c01.r01_4e_flatten_traces(ctx)  # flattening a well-formed block list raises nothing (shared with C01)
+    from rules import c02 as _c02
+
+    _c02.r02_4_recursion_guards(ctx)  # the call-graph searches terminate on every small call graph: no RecursionError in place of the by-reference TealInputError (R02.4p; shared with C02)
     _c01.r01_6e_normalize(ctx)  # nor does normalisation of a well-formed graph
     from rules import c12 as _c12, c03 as _c03
 
